@@ -272,8 +272,8 @@ func checkC18(c *Ctx) {
 
 	// ---- (2b) prefix + 1 (exclusive end of a namespace)
 	c.rule("TABLE-prefix-increment", "end bound of a prefix range: increment with carry", 6)
-	checkCpIncrTable(c, l, "TABLE-prefix-increment", "db.cpIncr", l.Func("db", "cpIncr"))
-	checkCpIncrTable(c, l, "TABLE-prefix-increment", "internal/bytes.CpIncr", l.Func("internal/bytes", "CpIncr"))
+	checkCpIncrTable(c, l, "TABLE-prefix-increment", "db.cpIncr", l.Func("db", "cpIncr"), true)
+	checkCpIncrTable(c, l, "TABLE-prefix-increment", "internal/bytes.CpIncr", l.Func("internal/bytes", "CpIncr"), false) // forward ranges only
 
 	checkBackendTables(c)
 
